@@ -133,6 +133,23 @@ NOT_YET = "checker not yet built in this session (static rule planned in DESIGN.
 ALL = [f"C{i:02d}" for i in range(1, 21)]
 
 
+def _rules_of(pid):
+    import importlib, sys
+    sys.path.insert(0, str(V))
+    from pvs.report import Ctx
+    mod = importlib.import_module(f"pvs.props.{pid.lower()}")
+    ctx = Ctx(pid, "quick")
+    try:
+        mod.check(ctx)
+    except Exception as e:          # the manifest must stay valid even when a check is broken on the current tree
+        return [], getattr(mod, "TECH", "")
+    out = []
+    for rid, text in sorted(ctx.rule_text.items(), key=lambda kv: [int(x) for x in kv[0][1:].split(".")]):
+        t = " ".join(text.split())
+        out.append(f"{rid}: {t[:200]}{'...' if len(t) > 200 else ''} [{ctx.counts.get(rid, 0)}]")
+    return out, getattr(mod, "TECH", "")
+
+
 def main():
     checks, na = [], []
     for pid in ALL:
@@ -142,6 +159,12 @@ def main():
             continue
         _, level, tech, text, note = ent
         text = text + EXTRA.get(pid, "")
+        # the rules the check actually runs today (declared by the check itself): ids, what each decides, instances on the current tree
+        rules, mod_tech = _rules_of(pid)
+        if rules:
+            text += " Rules run on every invocation (id: what is decided [instances on the current tree]): " + "; ".join(rules) + "."
+        if mod_tech:
+            tech = mod_tech
         checks.append({
             "property_id": pid,
             "quick_cmd": f"{PY} -m pvs.check {pid} --tier quick",
